@@ -268,7 +268,7 @@ fn lines_strategy() -> impl Strategy<Value = Vec<Vec<u16>>> {
 }
 
 fn resolve_line(raw: &[u16], palette: &[char]) -> String {
-    let mut s: String = raw
+    let s: String = raw
         .iter()
         .map(|&i| {
             if i < 40000 {
@@ -374,6 +374,9 @@ pub struct EvalCase {
     pub predict_tags: bool,
     pub word_metric: bool,
     pub wsconst: Vec<char>,
+    /// references carry tags although --predict-tags is not given
+    #[serde(default)]
+    pub ref_tags_anyway: bool,
 }
 
 fn rows(rs: &RefSentence) -> Vec<Vec<Option<String>>> {
@@ -434,6 +437,8 @@ pub fn test_evaluate(case: &EvalCase) -> TestResult {
     let fs = filters(&case.wsconst);
     let (mut tp, mut tn, mut fp, mut fnn) = (0u32, 0u32, 0u32, 0u32);
     let (mut n_sys, mut n_ref, mut n_cor) = (0u32, 0u32, 0u32);
+    // correct words when tags are left out of the comparison (see below)
+    let mut n_cor_spans = 0u32;
     for line in &case.lines {
         if line.is_empty() {
             continue;
@@ -467,6 +472,9 @@ pub fn test_evaluate(case: &EvalCase) -> TestResult {
             if rw.contains(w) && rr[w.1 - 1] == sr[w.1 - 1] {
                 n_cor += 1;
             }
+            if rw.contains(w) {
+                n_cor_spans += 1;
+            }
         }
     }
     let vals: Vec<(String, String)> = out
@@ -476,16 +484,35 @@ pub fn test_evaluate(case: &EvalCase) -> TestResult {
     let get = |k: &str| -> Result<String, String> {
         vals.iter().find(|(a, _)| a == k).map(|(_, b)| b.clone()).ok_or_else(|| format!("evaluate printed no {k:?} line: {out:?}"))
     };
-    let (prec, rec) = if case.word_metric {
-        (f64::from(n_cor) / f64::from(n_sys), f64::from(n_cor) / f64::from(n_ref))
-    } else {
-        (f64::from(tp) / f64::from(tp + fp), f64::from(tp) / f64::from(tp + fnn))
+    let metrics = |n_cor: u32| -> (f64, f64, f64) {
+        let (prec, rec) = if case.word_metric {
+            (f64::from(n_cor) / f64::from(n_sys), f64::from(n_cor) / f64::from(n_ref))
+        } else {
+            (f64::from(tp) / f64::from(tp + fp), f64::from(tp) / f64::from(tp + fnn))
+        };
+        (prec, rec, 2. * prec * rec / (prec + rec))
     };
-    let f1 = 2. * prec * rec / (prec + rec);
+    let (prec, rec, f1) = metrics(n_cor);
     let (gp, gr, gf) = (fnum(&get("Precision")?)?, fnum(&get("Recall")?)?, fnum(&get("F1")?)?);
-    ensure!(close(gp, prec), "Precision: tool {gp}, library {prec} (args {args:?})");
-    ensure!(close(gr, rec), "Recall: tool {gr}, library {rec} (args {args:?})");
-    ensure!(close(gf, f1), "F1: tool {gf}, library {f1}");
+    // Tagged references evaluated without --predict-tags: the system side has no tags, and whether
+    // a word with the right span then counts as correct is a matter of the metric's definition,
+    // not of the library's predictions. Both definitions are accepted - tag vectors compared (no
+    // tagged word is correct) and tags left out - but one of them has to hold for the whole file.
+    let spans_only = metrics(n_cor_spans);
+    let either = case.ref_tags_anyway && !case.predict_tags && case.word_metric;
+    let agrees = |m: (f64, f64, f64)| close(gp, m.0) && close(gr, m.1) && close(gf, m.2);
+    if either {
+        ensure!(
+            agrees((prec, rec, f1)) || agrees(spans_only),
+            "tagged references without --predict-tags: tool gives P {gp} R {gr} F1 {gf}; with tags compared on every line the library gives {:?}, with tags left out on every line {:?} (args {args:?})",
+            (prec, rec, f1),
+            spans_only
+        );
+    } else {
+        ensure!(close(gp, prec), "Precision: tool {gp}, library {prec} (args {args:?})");
+        ensure!(close(gr, rec), "Recall: tool {gr}, library {rec} (args {args:?})");
+        ensure!(close(gf, f1), "F1: tool {gf}, library {f1}");
+    }
     if !case.word_metric {
         let counts = out.lines().find(|l| l.starts_with("TP: ")).ok_or("no TP line")?;
         ensure_eq!(counts, format!("TP: {tp}, TN: {tn}, FP: {fp}, FN: {fnn}"), "confusion counts");
@@ -497,6 +524,7 @@ pub fn test_evaluate(case: &EvalCase) -> TestResult {
         .class(case.predict_tags, "--predict-tags")
         .class(!case.wsconst.is_empty(), "--wsconst")
         .class(n_cor > 0, "some-word-correct")
+        .class(either && n_cor != n_cor_spans, "tagged-references-without-predict-tags")
         .class(prec.is_nan() || rec.is_nan(), "NaN-metric"))
 }
 
@@ -506,10 +534,12 @@ fn eval_case_strategy() -> impl Strategy<Value = EvalCase> {
         proptest::collection::vec((any::<u16>(), proptest::collection::vec(any::<u16>(), 16), any::<u16>()), 1..=6),
         any::<[bool; 3]>(),
         proptest::collection::vec(any::<u16>(), 0..=2),
+        0u8..3,
     )
-        .prop_map(|(mc, sel, flags, ws)| {
+        .prop_map(|(mc, sel, flags, ws, anyway)| {
             let predict_tags = flags[1];
-            let n_tags = mc.spec.n_tags();
+            let ref_tags_anyway = !predict_tags && anyway == 0;
+            let n_tags = if ref_tags_anyway { 1 + ws.len() } else { mc.spec.n_tags() };
             let p_ref = util::predictor(&mc.spec, false).ok();
             let mut lines = vec![];
             for (ti, lab, k) in sel {
@@ -538,14 +568,14 @@ fn eval_case_strategy() -> impl Strategy<Value = EvalCase> {
                 }
                 let tags = (0..chars.len())
                     .map(|i| {
-                        if predict_tags {
+                        if predict_tags || ref_tags_anyway {
                             (0..n_tags).map(|j| if (i + j + k as usize) % 3 == 0 { None } else { Some(format!("t{}", (i + j) % 2)) }).collect()
                         } else {
                             vec![]
                         }
                     })
                     .collect();
-                let rs = RefSentence { chars, labels, tags, n_tags: if predict_tags { n_tags } else { 0 } };
+                let rs = RefSentence { chars, labels, tags, n_tags: if predict_tags || ref_tags_anyway { n_tags } else { 0 } };
                 lines.push(oracle::ref_write_tokenized(&rs));
             }
             EvalCase {
@@ -555,6 +585,7 @@ fn eval_case_strategy() -> impl Strategy<Value = EvalCase> {
                 predict_tags,
                 word_metric: flags[2],
                 wsconst: ws.iter().map(|&i| ['D', 'R', 'H', 'T', 'K', 'O', 'G'][pick(i, 7)]).collect(),
+                ref_tags_anyway,
             }
         })
 }
@@ -818,8 +849,10 @@ Non-trivial = --part and --dict files present.",
     let n = rep.n(3000, 40000);
     rep.run_prop(
         "evaluate",
-        "the real evaluate binary: valid tokenized references (untagged without --predict-tags, \
-tagged with the model's category count with it) built from the model's own prediction with \
+        "the real evaluate binary: valid tokenized references (tagged with the model's category \
+count under --predict-tags; without it untagged or, in a third of the runs, tagged with 1..3 \
+columns: there both definitions of a correct word - tag vectors compared, tags left out - are \
+accepted, one of them for the whole file) built from the model's own prediction with \
 flipped boundaries x {char, word} x {--no-norm, --predict-tags, --wsconst}: confusion counts, \
 precision, recall, F1 equal those recomputed from library predictions (Nagata matching from its \
 definition; 1e-12 relative tolerance, NaN = NaN). Non-trivial = at least one predicted boundary \
